@@ -1263,6 +1263,12 @@ class Interp:
             for ok, s2 in res:
                 for ctl, v, s3 in self.eval(f["body"], s2):
                     # drop callee locals
+                    if self.module is not None and hasattr(self.module, "on_return") and ctl in (RET, OK):
+                        for v, s3 in self.module.on_return(self, f, v, s3):
+                            v = self.deep_deref(s3, v, st.depth + 1)
+                            store = {k: x for k, x in s3.store.items() if not (k[0] == "L" and k[1] == st.depth + 1)}
+                            out.append((OK, v, State(store, s3.mon, st.depth)))
+                        continue
                     v = self.deep_deref(s3, v, st.depth + 1)
                     store = {k: x for k, x in s3.store.items() if not (k[0] == "L" and k[1] == st.depth + 1)}
                     s4 = State(store, s3.mon, st.depth)
